@@ -417,6 +417,9 @@ def Op.sane : Op → Prop
   | .step p => p.ans = .accept 0 → p.zero = true
   | _ => True
 
+instance : DecidablePred Op.sane := fun op => by
+  cases op <;> simp only [Op.sane] <;> infer_instance
+
 theorem step_disarm_fields (s : St) :
     (step s .disarm).drvDisarm = false ∧ (step s .disarm).q = s.q ∧ (step s .disarm).wire = s.wire ∧
     (step s .disarm).fut = s.fut ∧ (step s .disarm).returned = s.returned ∧ (step s .disarm).enqd = s.enqd ∧
@@ -773,5 +776,16 @@ theorem model_satisfies_specL (ops : List Op) (hs : ∀ op ∈ ops, op.sane) (la
   obtain ⟨sp, h⟩ := model_satisfies_spec ops hs
   refine ⟨sp, (specRunL_ok _ _ _).mpr ?_⟩
   simpa [List.map_map, Function.comp_def] using h
+
+/-- a concrete history (used by the non-vacuity examples of `Props/C02.lean`): partial write, scripted zero (exception out of Step), lagging
+peer, failed send of an empty buffer, queue runs empty and is refilled, pool exhausted, a step while the
+kernel reports "not writable", peer close noticed by a step, Send on the unregistered socket, destroy
+with a pending buffer, a step afterwards -/
+def specDemo : List Op :=
+  [.sock 2, .send 1 [1, 2, 3], .send 2 [], .step ⟨false, false, .accept 2, false⟩,
+   .step ⟨false, true, .accept 0, true⟩, .drain 1, .step ⟨false, true, .accept 7, false⟩,
+   .step ⟨false, true, .fail, false⟩, .send 3 [9], .nobuf, .step ⟨false, false, .accept 1, false⟩, .drain 5,
+   .step ⟨false, false, .accept 1, false⟩, .peerclose, .send 4 [4, 4], .step ⟨true, false, .accept 1, false⟩,
+   .step ⟨false, true, .accept 1, false⟩, .destroy, .step ⟨false, true, .accept 1, false⟩]
 
 end SockModel.AsyncQ
